@@ -132,8 +132,9 @@ Fixpoint pstr (q : ascii) (cs : chars) : option (chars * chars) :=
             else if Ascii.eqb e "x"%char then
               match r1 with
               | h1 :: h2 :: r2 =>
+                  (* \xNN with NN >= 128 denotes U+00NN, two bytes in UTF-8: outside the fragment *)
                   match unhex2 h1 h2, pstr q r2 with
-                  | Some x, Some (s, r') => Some (x :: s, r')
+                  | Some x, Some (s, r') => if code x <? 128 then Some (x :: s, r') else None
                   | _, _ => None
                   end
               | _ => None
